@@ -175,6 +175,24 @@ Definition dispatch (cmd : string) (args : list sexp) : option sexp :=
                     enc_list (fun kv => SL [enc_Z (fst (fst kv)); enc_nat (snd (fst kv))]) (vcache nf)])
       | _, _, _, _, _, _ => None
       end
+  (* (names-seq rank names in_dim (out_dim ..)): the batched view of a named tensordict is un-batched once per out_dim (the
+     memoised view of a locked tensordict over several calls / a view returned several times): names of every result, names
+     the view is left with *)
+  | "names-seq", [rk; nm; SZ i; os] =>
+      match dec_nat rk, dec_opt (dec_list dec_name) nm, dec_list dec_Z os with
+      | Some rk, Some nm, Some os =>
+          match process_in_dim rk i with
+          | None => Some (SA "reject")
+          | Some d =>
+              let vn := names_add nm d in
+              match all_some (map (fun o => option_map Z.of_nat (torch_wrap o rk)) os) with
+              | None => Some (SL [SA "raise"; SA "IndexError"])
+              | Some ps => let '(rs, vn') := unbatch_seq true vn ps in
+                           Some (SL [SA "ok"; enc_list enc_names rs; enc_names vn'])
+              end
+          end
+      | _, _, _ => None
+      end
   (* (lazy-op shape stack_dim in_dim out_dim op) -> batch size of vmap(op-class) over a lazy stack *)
   | "lazy-op", [sh; s; SZ i; o; op] =>
       match dec_list dec_nat sh, dec_nat s, dec_nat o, dec_hop op with
